@@ -3,9 +3,16 @@ from .facts import const_val
 from .consteval import ConstEval
 
 
+def registry_global(mod):
+    """the registry table: the one global array of pointers to extended-header type descriptors (found by its type, whatever its name)"""
+    import re
+    c = [g for g in mod.globals.values() if re.match(r"\[\d+ x %struct\.LHAExtHeaderType\*\]$", g.get("ty", "")) and not g.get("decl")]
+    return c[0] if len(c) == 1 else None
+
+
 def registry_entries(mod):
     """[(type byte, decoder C name, min_len)] from the initialiser of the registry table, or None"""
-    reg = mod.globals.get("ext_header_types")
+    reg = registry_global(mod)
     if not reg or reg.get("init", {}).get("k") != "agg":
         return None
     out = []
